@@ -43,6 +43,7 @@ type Contract struct {
 	Line     int
 	Lets     []LetDef // ghost definitions usable in clauses: let name = expr (evaluated at entry)
 	Uses     []string
+	Decreases *Clause // function-level measure (recursion)
 	WF       []string // heap specs for which heap well-formedness axioms are emitted
 }
 
@@ -71,7 +72,20 @@ type PureFn struct {
 }
 
 // ContractSet is everything read from the contract files.
+// Template is a clause or spec function schema that is expanded once per struct field
+// ("forall-fields F of T kind :: text" with $F the field name and $T its (element) type).
+type Template struct {
+	Pkg   string
+	Kw    string // requires, ensures, invariant, spec
+	Owner *Contract
+	Loop  *LoopSpec
+	Text  string
+	File  string
+	Line  int
+}
+
 type ContractSet struct {
+	Templates []Template
 	Funcs map[string]*Contract
 	Pures map[string]*PureFn
 	Order []string
@@ -169,9 +183,27 @@ func (cs *ContractSet) loadFile(path string) error {
 				return fmt.Errorf("%s:%d: props outside func", path, r.line)
 			}
 			cur.Props = append(cur.Props, strings.Fields(strings.ReplaceAll(r.text, ",", " "))...)
+		case "spec-fields":
+			cs.Templates = append(cs.Templates, Template{Pkg: pkg, Kw: "spec", Text: r.text, File: path, Line: r.line})
 		case "requires", "ensures", "invariant", "decreases":
 			if cur == nil {
 				return fmt.Errorf("%s:%d: %s outside func", path, r.line, r.kw)
+			}
+			if strings.HasPrefix(r.text, "forall-fields ") {
+				if r.kw == "invariant" && curLoop == nil {
+					return fmt.Errorf("%s:%d: invariant outside loop", path, r.line)
+				}
+				cs.Templates = append(cs.Templates, Template{Pkg: pkg, Kw: r.kw, Owner: cur, Loop: curLoop, Text: strings.TrimPrefix(r.text, "forall-fields "), File: path, Line: r.line})
+				continue
+			}
+			if r.kw == "decreases" && curLoop == nil {
+				c, err := mk()
+				if err != nil {
+					return err
+				}
+				cc := c
+				cur.Decreases = &cc
+				continue
 			}
 			c, err := mk()
 			if err != nil {
